@@ -7,6 +7,7 @@ import (
 	utils "github.com/acekingke/yaccgo/Utils"
 	"github.com/acekingke/yaccgo/verifsched"
 
+	"verifharness/gen"
 	"verifharness/lrm"
 	"verifharness/ygo"
 )
@@ -164,6 +165,12 @@ func c05Eval(w *Worker, c *GCase) {
 			for a, want := range row {
 				w.Count("cells_compared", 1)
 				got, ok := pm.Lookup(s, a)
+				if (!ok || got != want) && c05GeneratedAgrees(w, c, v.GTable) {
+					// the transliteration of Action() in harness/lrm no longer matches the generated code,
+					// and the generated packed parser answers every cell like the table: not a violation
+					w.Count("transliteration_stale_generated_code_correct", 1)
+					return
+				}
 				if !ok || got != want {
 					ordName := "canonical"
 					if ord.Kind == verifsched.Reverse {
@@ -178,4 +185,30 @@ func c05Eval(w *Worker, c *GCase) {
 		}
 	}
 	w.SampleEvery(w.Out.Counters["evaluations"], 4999, func() interface{} { return map[string]interface{}{"grammar": key} })
+}
+
+// c05GeneratedAgrees builds the real packed Go parser for the grammar and asks
+// its Action() for every cell; it reports whether all answers equal the table.
+func c05GeneratedAgrees(w *Worker, c *GCase, table [][]int) bool {
+	b, err := gen.NewBatch(w.Scratch, fmt.Sprintf("c05confirm-%d", w.Shard))
+	if err != nil {
+		return false
+	}
+	defer b.Remove()
+	d := gen.Decorate(c.Spec, nil, gen.NoAction)
+	it := b.Add("cf0", gen.Go, d)
+	if it.GenDiag != "" || b.BuildGo() != nil || it.BuildErr != "" {
+		return false
+	}
+	agrees := false
+	nsym := 0
+	if len(table) > 0 {
+		nsym = len(table[0])
+	}
+	b.RunGo([]gen.Job{{Pkg: "cf0", NStates: len(table), NSyms: nsym}}, func(o *gen.Out) {
+		if o.Kind == "dump" && o.Err == "" {
+			agrees = fmt.Sprint(o.Dump) == fmt.Sprint(table)
+		}
+	})
+	return agrees
 }
